@@ -401,6 +401,15 @@ pub fn c14_lterm_terms() -> Vec<T> {
         }
     }
     terms.push(T::list(vec![T::list(vec![T::list(vec![q()])]), T::list(vec![]), T::cons(T::I(1), T::cons(T::I(2), r()))]));
+    // improper lists with two or three heads nested as element, as tail, and inside each other
+    let imp2 = |a: T, b: T, t: T| T::improper(vec![a, b], t);
+    terms.push(T::list(vec![T::I(0), imp2(T::I(1), T::I(2), T::I(3))]));
+    terms.push(T::list(vec![imp2(q(), r(), T::I(3)), T::I(0)]));
+    terms.push(T::cons(T::I(0), imp2(T::I(1), T::I(2), r())));
+    terms.push(T::list(vec![T::list(vec![imp2(T::I(1), T::B(true), q())])]));
+    terms.push(T::improper(vec![T::I(1), T::I(2), T::I(3)], q()));
+    terms.push(T::list(vec![T::improper(vec![T::I(1), T::I(2), T::I(3)], T::C('c')), imp2(T::S("s".into()), T::I(7), T::I(0))]));
+    terms.push(imp2(imp2(T::I(1), T::I(2), T::I(3)), imp2(q(), T::I(5), r()), T::I(6)));
     terms
 }
 
@@ -425,6 +434,9 @@ pub fn c14_cases(quick: bool) -> Vec<SCase> {
         T::list(vec![r(), r()]),
         T::cons(r(), T::list(vec![T::I(1)])),
         T::improper(vec![T::I(1), T::I(2)], r()),
+        T::list(vec![T::I(0), T::improper(vec![T::I(1), T::I(2)], T::I(3))]),
+        T::list(vec![T::improper(vec![r(), T::I(2), T::I(3)], T::I(4)), T::I(5)]),
+        T::cons(T::I(0), T::improper(vec![T::I(1), T::I(2)], r())),
         T::list(vec![T::list(vec![T::list(vec![r()])])]),
         T::Cmp(Tag::Pair, vec![T::I(1), r()]),
         T::Cmp(Tag::Tuple, vec![r(), T::I(2)]),
